@@ -61,6 +61,18 @@ def prefix_statements(ret):
     return out
 
 
+def not_shared_cond(fn, c):
+    """condition is `!ShareTransTable(..)` or `!b` with a local bool b initialised from that call"""
+    c = strip(c)
+    if c is None or c['k'] != 'UnaryOperator' or c.get('op') != '!':
+        return False
+    x = strip(c['ch'][0])
+    if x is not None and x['k'] == 'DeclRefExpr':
+        v = var_table(fn).get(x.get('d'))
+        x = strip(v['decl'].get('init')) if v and is_node(v['decl'].get('init')) else None
+    return x is not None and x['k'] in ('CallExpr', 'CXXMemberCallExpr') and method_name(x) == 'ShareTransTable'
+
+
 MECH = {}
 
 
@@ -257,6 +269,12 @@ def run(unit, em):
             MECH.clear()
             for s in prefix_statements(ret):
                 evidence(unit, fn, s, R, params, ev, bad)
+                # `if (!<tables shared>) { copy the table }` without else: when the tables are shared the rules in them are
+                # already common to both operands, so a contribution made under "not shared" is as good as unconditional
+                if s['k'] == 'IfStmt' and s.get('el') is None and is_node(s.get('th')) and not_shared_cond(fn, s.get('c')) and cls.startswith('BDD'):
+                    th = s['th']
+                    for t in (th.get('ch', []) if th['k'] == 'CompoundStmt' else [th]):
+                        evidence(unit, fn, t, R, params, ev, bad)
             for (op_, comp_), ms in sorted(MECH.items()):
                 if 'copy' in ms and 'renumbered' in ms:
                     bad.append((ret, 'the %s of operand `%s` enter the result twice: copied in the operand\'s own numbering (constructor) and again renumbered (ReindexStates); the stale copies alias unrelated result states' % (
